@@ -90,8 +90,12 @@ class Encoder:
         self.ring = P.Ring(max_terms)
         self.free = set(free)
         self.free_all = free_all
-        self.angle_pins = dict(angle_pins or {})   # input name -> (Fraction w, L0) with w = tan(q/(2 L0))
+        angle_pins = dict(angle_pins or {})
+        exact_pins = angle_pins.pop("__exact__", {})
+        self.angle_pins = angle_pins   # input name -> (Fraction w, L0) with w = tan(q/(2 L0))
         self.pins = dict(pins or {})               # input name -> exact Fraction (overrides seed)
+        for k_, v_ in exact_pins.items():
+            self.pins.setdefault(k_, v_)
         self.maxL = maxL
         self.memo = {}                 # node id -> poly
         self.vals = {}                 # var index -> float value at the seed
